@@ -77,6 +77,7 @@ b</%def>
 <%def name="wkw(v)">K[${v}|${caller.body(q=probe(21))}]</%def>
 <%def name="s_deco2()">a${deco2('x')}b</%def>
 <%def name="s_nsargs()">a<%self:wkw v="${q}" args="q">r${q}</%self:wkw>b</%def>
+<%def name="s_exprarg()">a<%call expr="wkw(q)" args="q">r${q}</%call>b</%def>
 <%def name="s_foreign()">a<% other.render_context(context) %>b</%def>
 <%def name="s_pydef()">a<%call expr="pydef(context)">c${probe(18)}</%call>b</%def>
 <%def name="who()">${caller.body() if caller else 'none'}</%def>
@@ -111,6 +112,7 @@ SITES = {
     "s_bufblock": ("ak[#19#]b", {19: "a"}),
     "s_deco2": ("a<E[X2#22#]>b", {22: "a<E[X2"}),
     "s_nsargs": ("aK[Q|r#21#]b", {21: "aK[Q|"}),
+    "s_exprarg": ("aK[Q|r#21#]b", {21: "aK[Q|"}),
     "s_foreign": ("aN[#20#]b", {20: "aN["}),
     "s_pydef": ("aY[#16#c#18##17#]b", {16: "aY[", 18: "aY[#16#c", 17: "aY[#16#c#18#"}),
     "s_loopiter": ("a000o0100o1b".replace("000o0100o1", "0" + "00" + "o0" + "1" + "01" + "o1"), {(15, 1): "a0", (15, 2): "a000o01"}),
